@@ -8,10 +8,15 @@ meta = json.load(open(d + '/meta.json'))
 prop = meta['property']
 assert subprocess.run(['git', '-C', '/repo', 'status', '--porcelain', '--untracked-files=no'], capture_output=True, text=True).stdout.strip() == '', 'repo not clean'
 subprocess.check_call(['git', '-C', '/repo', 'apply', d + '/patch.diff'])
+# the evidence file describes runs on /repo as it is; a run on a seeded tree must not leave its record behind
+evf = '/verif/evidence/%s.json' % prop
+saved = open(evf).read() if os.path.exists(evf) else None
 try:
     p = subprocess.run(['/verif/bin/check', prop, '--tier', tier], capture_output=True, text=True)
 finally:
     subprocess.check_call(['git', '-C', '/repo', 'checkout', '--', '.'])
+    if saved is not None:
+        open(evf, 'w').write(saved)
 out = p.stdout
 failed = [l for l in out.splitlines() if l.startswith('FAILED obligation')]
 viol = [l for l in out.splitlines() if l.startswith('VIOLATION')]
